@@ -15,8 +15,10 @@ pub struct Bufs {
 
 impl Bufs {
     pub fn new(c: &Case) -> Bufs {
+        let mk_mbuff = || if c.kind == Kind::Mbuff && !c.mbuff.is_empty() { Some(GuardBuf::new(c.mbuff.len(), !c.end_aligned, false)) } else { None };
+        let early = if c.mbuff_first { mk_mbuff() } else { None };
         let pkt = if c.pkt.is_empty() { None } else { Some(GuardBuf::new(c.pkt.len(), c.end_aligned, false)) };
-        let mbuff = if c.kind == Kind::Mbuff && !c.mbuff.is_empty() { Some(GuardBuf::new(c.mbuff.len(), !c.end_aligned, false)) } else { None };
+        let mbuff = if c.mbuff_first { early } else { mk_mbuff() };
         let b = Bufs { pkt, mbuff };
         b.reset(c);
         b
@@ -131,7 +133,7 @@ pub fn build_vm<'a>(c: &'a Case, family: Family) -> Result<Vm<'a>, String> {
     let mut vm = match path {
         1 => Vm::new(c.kind, None, c.offs)?,
         2 => Vm::new(c.kind, Some(&DUMMY_PROG), (c.offs.1, c.offs.0))?,
-        _ => Vm::new(c.kind, Some(&c.prog), c.offs)?,
+        _ => Vm::new(c.kind, Some(c.prog_slice()), c.offs)?,
     };
     for (id, j) in &c.helpers {
         vm.register_helper(*id, helper_for(*j, family))?;
@@ -140,7 +142,7 @@ pub fn build_vm<'a>(c: &'a Case, family: Family) -> Result<Vm<'a>, String> {
         vm.set_calc(calc_fn, Box::new(c.calc.clone()))?;
     }
     if path == 1 || path == 2 {
-        vm.set_program(&c.prog, c.offs)?;
+        vm.set_program(c.prog_slice(), c.offs)?;
     }
     if path >= 3 {
         // "after something went wrong": a load the verifier refuses (a program with function
